@@ -445,6 +445,18 @@ def bounded(tier, seed):
         ("def fresh() do def l = [0]; l end; def a = fresh(); append(a, 1); fresh()", "[0]"),
         ("def rows = [[] for i in range(2)]; append(rows[0], 1); rows", "[[1], []]"),
         ("def a = [1]; def f(x = a) do append(x, 2); x end; f(); a", "[1, 2]"),
+        # a mutation is visible through every holder and every way of looking at the value - also after the value has been looked at
+        # before (rendered, spread, converted, iterated): nothing remembered from an earlier look may survive a mutation
+        ("def m = <<<'a' => 1>>>; def al = m; string(m); [k for k in keys m]; m['b'] = 2; [string(al) == string(<<<'a' => 1, 'b' => 2>>>), [k for k in keys al], string([al])]",
+         "[TRUE, ['a', 'b'], '[<<<\\'a\\' => 1, \\'b\\' => 2>>>]']"),
+        ("def m = <<<'a' => 1>>>; string(m); m->c = 3; [string(object(m)), string(m)]", "['<*a=1, c=3*>', '<<<\\'a\\' => 1, \\'c\\' => 3>>>']"),
+        ("def f(x...) x; def m = <<<'a' => 1>>>; string(m); def g(mm) do mm['b'] = 2 end; g(m); [string(m), length(m), 'b' in m]", "['<<<\\'a\\' => 1, \\'b\\' => 2>>>', 2, TRUE]"),
+        ("def m = <<<'a' => 1>>>; string(m); put(m, 'b', 2); remove(m, 'a'); string(m)", "'<<<\\'b\\' => 2>>>'"),
+        ("def s = <<3, 1>>; def al = s; string(s); [x for x in s]; append(s, 2); [string(al), [x for x in al]]", "['<<1, 2, 3>>', [1, 2, 3]]"),
+        ("def s = <<3, 1>>; string(s); remove(s, 3); string(s)", "'<<1>>'"),
+        ("def l = [1]; def m = <<<'k' => l>>>; string(m); append(l, 2); [string(m), string(<<l>>)]", "['<<<\\'k\\' => [1, 2]>>>', '<<[1, 2]>>']"),
+        ("def o = <*a = 1*>; def al = o; string(o); o->b = 2; [string(al), [k for k in keys al]]", "['<*a=1, b=2*>', ['a', 'b']]"),
+        ("def l = [2, 1]; string(l); sorted(l); l[0] = 9; insert_at(l, 0, 7); delete_at(l, 2); string(l)", "'[7, 9]'"),
         # containers inside results of non-mutating library functions are not the argument itself
         ("def a = [1, 2]; def c = chunks(a, 5); append(c[0], 9); a", "[1, 2]"), ("def a = [1, 2]; def c = chunks(a, 2); append(c[0], 9); a", "[1, 2]"),
         ("def a = [1, 2, 3]; def c = chunks(a, 2); append(c[1], 9); a", "[1, 2, 3]"), ("def a = [1, 2]; def c = first_n(a, 5); append(c, 9); a", "[1, 2]"),
